@@ -311,7 +311,6 @@ func ruleApiBounds(c *Ctx) {
 	}
 }
 
-
 // ruleRetCount: a host function returns the number of results it pushed. For every `return k` with a
 // constant k in a function of type LGFunction whose paths to that return are loop-free, the number of
 // values pushed on each path is compared with k: fewer pushes than k hands out whatever lies below
